@@ -64,6 +64,10 @@ fn o_case(tier: Tier) -> impl Strategy<Value = OCase> {
                     }
                 }
             }
+            // the class the property singles out: nulls before the first valid element
+            if single % 3 == 1 && enc != Enc::I32 && !x.is_empty() {
+                x[0] = None;
+            }
             let len = x.len();
             let (qa, qb, nudge) = match qm {
                 0 => (0, 1, 0),
